@@ -1713,8 +1713,8 @@ func TestVerifC07Mailbox(t *testing.T) {
 	cases := 1500
 	budget := 60 * time.Second
 	if tier == "thorough" {
-		cases = 30000
-		budget = 10 * time.Minute
+		cases = 20000
+		budget = 7 * time.Minute
 	}
 	startT := time.Now()
 	for i := 0; i < cases && time.Since(startT) < budget; i++ {
